@@ -62,8 +62,8 @@ func VH_stree_HeightStep() {
 		vAssert(calls <= vDepth(t.root)+1, "lookup comparisons bounded by depth+1")
 		vAssert(vDepthBoundOK(beta, P, calls-1), "lookup needs at most bound+1 comparisons")
 	}
-	vAssert(t.size >= (t.max*t.β+maxBalance)/fracLimit, "representation: size not below the rebuild threshold")
-	vAssert(t.max >= t.size, "representation: size <= max")
+	vInvariant(t.size >= (t.max*t.β+maxBalance)/fracLimit, "size not below the rebuild threshold")
+	vInvariant(t.max >= t.size, "size <= max")
 }
 
 // vAPIDepth measures depth through the exported cursor API only.
